@@ -38,9 +38,22 @@ func oracleFail(prop, class string, c sx.S, msg string) {
 
 // noteCase records the input about to be run, so that a crash the process cannot recover from
 // (fatal stack overflow, runtime throw) can still be reported with its input.
+var noteFiles = map[string]*os.File{}
+
+// noteCase records the input about to be handled, so that a crash or a hang of the process can be reported with it
 func noteCase(prop, text string) {
-	os.MkdirAll("../build/tmp", 0o755)
-	os.WriteFile("../build/tmp/last-case-"+prop+".txt", []byte(text), 0o644)
+	f := noteFiles[prop]
+	if f == nil {
+		os.MkdirAll("../build/tmp", 0o755)
+		var err error
+		f, err = os.OpenFile("../build/tmp/last-case-"+prop+".txt", os.O_CREATE|os.O_RDWR|os.O_TRUNC, 0o644)
+		if err != nil {
+			return
+		}
+		noteFiles[prop] = f
+	}
+	f.Truncate(0)
+	f.WriteAt([]byte(text), 0)
 }
 
 func stat(prop, key string) { stats[prop+"\t"+key]++ }
